@@ -40,6 +40,7 @@ type FakeProxy struct {
 type ListCall struct {
 	At, Done time.Duration
 	Seq      uint64
+	DoneSeq  uint64
 	Status   int
 	Backend  string
 }
@@ -121,6 +122,7 @@ func (p *FakeProxy) list(rw http.ResponseWriter, r *http.Request) {
 	}
 	p.mu.Lock()
 	p.ListCalls[n].Done = p.w.K.Now()
+	p.ListCalls[n].DoneSeq = p.w.K.Seq()
 	p.ListCalls[n].Status = status
 	p.mu.Unlock()
 }
